@@ -57,8 +57,11 @@ inductive Step (g : Graph) (lim : Option Nat) : St → Label → St → Prop
       Step g lim s .cRecv { s with ch := rest, received := v :: s.received, expect := s.expect - 1,
                                    cSched := some ⟨g.post v, .next⟩ }
   | cCtxDone {s : St} :
-      s.cAlive = true → s.cSched = none → s.cancelled = true →
+      s.cAlive = true → s.cSched = none → s.cancelled = true → s.m = none →
       Step g lim s .cCtxDone { s with cAlive := false }
+  | extCancel {s : St} :
+      s.extCancelled = false →
+      Step g lim s .extCancel { s with cancelled := true, extCancelled := true }
 
 theorem step?_sound {g : Graph} {lim : Option Nat} {s s' : St} {l : Label}
     (h : step? g lim s l = some s') : Step g lim s l s' := by
@@ -151,8 +154,13 @@ theorem step?_sound {g : Graph} {lim : Option Nat} {s s' : St} {l : Label}
     split at h
     · rename_i hsel
       simp only [Bool.and_eq_true, Option.isNone_iff_eq_none] at hsel
-      cases h; exact .cCtxDone hsel.1.1 hsel.1.2 hsel.2
+      cases h; exact .cCtxDone hsel.1.1.1 hsel.1.1.2 hsel.1.2 hsel.2
     · cases h
+  | extCancel =>
+    simp only [step?] at h
+    split at h
+    · cases h
+    · cases h; exact .extCancel (by simpa using ‹¬ s.extCancelled = true›)
 
 /-! ### `getSched` / `putSched` -/
 
@@ -181,6 +189,7 @@ theorem getSched_put_ne {s : St} {w w' : Who} (x : Option Sched) (h : w' ≠ w) 
 @[simp] theorem putSched_expect (s : St) (w : Who) (x) : (putSched s w x).expect = s.expect := by cases w <;> rfl
 @[simp] theorem putSched_log (s : St) (w : Who) (x) : (putSched s w x).log = s.log := by cases w <;> rfl
 @[simp] theorem putSched_firstErr (s : St) (w : Who) (x) : (putSched s w x).firstErr = s.firstErr := by cases w <;> rfl
+@[simp] theorem putSched_extCancelled (s : St) (w : Who) (x) : (putSched s w x).extCancelled = s.extCancelled := by cases w <;> rfl
 @[simp] theorem putSched_errExits (s : St) (w : Who) (x) : (putSched s w x).errExits = s.errExits := by cases w <;> rfl
 
 /-- the scheduling state of a goroutine only depends on `m`, `cSched`, `cAlive` -/
